@@ -44,6 +44,12 @@ DEVIATIONS = {
     'ack_per_key': (['C11'],
                     'a SETTINGS ACK applies one pending value of EVERY key instead of the changes of the one frame it answers '
                     '(ACK of the initial frame applies a later update_settings)'),
+    'settings_shrink_stalls_window': (['C05'],
+                                      'a local INITIAL_WINDOW_SIZE decrease, acknowledged by the peer after the application has '
+                                      'acknowledged received DATA that was not yet credited back, takes the stream window to zero with '
+                                      'the acknowledged octets still uncredited: no WINDOW_UPDATE is ever emitted, the peer can send '
+                                      'nothing, the stream is deadlocked although every received octet was acknowledged and the maximum is '
+                                      'positive (found by TLC: P_C05_NoStall on MC_StallS, 4 steps; confirmed on the code with 1000 octets)'),
     'header_frame_exceeds_limit': (['C02', 'C29'],
                                    'the encoded header block is cut into slices of the peer MAX_FRAME_SIZE before the priority fields '
                                    '(send_headers with priority arguments, 5 octets) or the promised stream id (push_stream, 4 octets) '
